@@ -172,6 +172,10 @@ func (v Map) Size() int {
 	return v.m.Size()
 }
 
+// Equals compares two maps key by key. The result does not depend on the order in
+// which the entries are visited nor on which of the two maps is the receiver: if any
+// pair of values can not be compared, the error is returned, even if another entry
+// differs or a key is missing; otherwise the maps are equal if all entries are equal.
 func (v Map) Equals(st funcGen.Stack[Value], other Map, equal funcGen.BoolFunc[Value]) (bool, error) {
 	if v.Size() != other.Size() {
 		return false, nil
@@ -186,16 +190,18 @@ func (v Map) Equals(st funcGen.Stack[Value], other Map, equal funcGen.BoolFunc[V
 				return false
 			}
 			if !b {
+				// keep going, a later entry may not be comparable at all
 				eq = false
-				return false
 			}
 		} else {
 			eq = false
-			return false
 		}
 		return true
 	})
-	return eq, innerErr
+	if innerErr != nil {
+		return false, innerErr
+	}
+	return eq, nil
 }
 
 func (v Map) Accept(st funcGen.Stack[Value]) (Map, error) {
